@@ -1,5 +1,5 @@
 # replay of a bounded stand-in violation: re-run native/c01_backends.py
 import sys
-print("Vacuum() | q[1] of 2 on fock: raised ValueError: einstein sum subscripts string included output subscript 'b' which never appeared in an input")
+print("MeasureHeterodyne(0.2, -0.3) | q[0] of 3 on gaussian: ('quad', 1, 0.0) = [0.1976, 0.6985], the documented action gives [0.1966, 0.6985]")
 print('REPLAY-VIOLATION')
 sys.exit(1)
